@@ -161,6 +161,21 @@ Fixpoint pl_update_all (l : plist) (score_of : hostport -> Z) (order : list host
 Definition pl_set_strategy (l : plist) (score_of : hostport -> Z) (order : list hostport) : option plist :=
   pl_update_all l score_of (iteration_order (pl_keys l) order).
 
+(* consecutive Get(nil) selections with the given draws; the host:ports selected, in order *)
+Fixpoint get_nils (l : plist) (ds : list Z) : option (plist * list hostport) :=
+  match ds with
+  | [] => Some (l, [])
+  | d :: r =>
+      match pl_get l [] d with
+      | Some (l', SelOk hp, _) =>
+          match get_nils l' r with
+          | Some (l'', sel) => Some (l'', hp :: sel)
+          | None => None
+          end
+      | _ => None
+      end
+  end.
+
 (* ---------------------------------------------------------------- level 2: the channel *)
 
 (* what the score calculators read of a Peer, plus Peer.chosenCount.
